@@ -43,16 +43,31 @@ def mir_schedule(F, path):
     if body is None:
         raise FX.AnchorMissing(path)
     ops = []
-    pending = []
+    lit = {}  # local -> byte-string literal it (transitively) holds: Use const, Ref, unsizing Cast, Copy/Move
     for bi in rpo(body):
         blk = body["blocks"][bi]
         for st in blk["stmts"]:
             rv = st.get("rv") or {}
+            dst = (st.get("place") or {}).get("l")
+            if dst is None or (st.get("place") or {}).get("p"):
+                continue
+            src = None
             if rv.get("k") == "Use":
-                s = (rv.get("op") or {}).get("s") or ""
-                m = re.match(r'^(?:const )?b"((?:[^"\\]|\\.)*)"$', s)
+                op = rv.get("op") or {}
+                s_ = op.get("s") or ""
+                m = re.match(r'^(?:const )?b"((?:[^"\\]|\\.)*)"$', s_)
                 if m:
-                    pending.append(m.group(1))
+                    lit[dst] = m.group(1)
+                    continue
+                src = (op.get("place") or {}).get("l")
+            elif rv.get("k") == "Ref":
+                src = (rv.get("place") or {}).get("l")
+            elif rv.get("k") == "Cast":
+                src = ((rv.get("op") or {}).get("place") or {}).get("l")
+            if src is not None and src in lit:
+                lit[dst] = lit[src]
+            else:
+                lit.pop(dst, None)
         t = blk["term"]
         if t["k"] == "Call" and t["func"]["k"] == "Fn":
             p = t["func"]["path"]
@@ -61,8 +76,15 @@ def mir_schedule(F, path):
                 if name in ("clone", "build_rng", "finalize"):
                     ops.append((name, None))
                     continue
-                labels = pending[:]
-                pending = []
+                labels = []
+                for a_ in t.get("args", []):
+                    l_ = (a_.get("place") or {}).get("l")
+                    if l_ in lit:
+                        labels.append(lit[l_])
+                    elif a_.get("k") == "Const":
+                        m = re.match(r'^(?:const )?b"((?:[^"\\]|\\.)*)"$', a_.get("s") or "")
+                        if m:
+                            labels.append(m.group(1))
                 ops.append((name, tuple(labels)))
     return ops
 
